@@ -9,12 +9,19 @@ import core
 from core import fseq, fseqs, fbool, pseq, pseqs, guarded
 import pinlib
 import c15
+import used
+import past
 
 PROP = "C16"
 RULE = ("special/alt/w1/w2: every basis of <= 3 permutations of length <= 4 (quick: all of <= 2 and a sample of triples); "
         "verdict lines (hfs with all flag combinations, Av method, strategy, CLI body): sampled classes, each queried "
         "through every entry point, in several orders, with a repeated and with a redundant element, and in symmetric "
-        "images; non-trivial = the basis has an element of length >= 3 (so the tables / the automaton are consulted); "
+        "images (quick: two of these five variant groups per class, in rotation); long elements: the table tests on "
+        "sub-patterns of family members of length 9-12, 21-40 (oracle by backtracking containment), 64-70 "
+        "(model only), every entry point on long-element classes whose verdict needs no automaton, one group with "
+        "elements of length 5 and 6 next to short ones; a third of the bases built from Perm objects with a past; "
+        "selected lines after histories of short-lived class / strategy objects (dropped, collected) and with a list "
+        "argument that held another basis in an earlier call; non-trivial = the basis has an element of length >= 3 (so the tables / the automaton are consulted); "
         "distinct = distinct op lines")
 ASSUMPTIONS = [
     "model/implementation agreement outside the enumerated and sampled inputs is assumed",
@@ -47,7 +54,70 @@ def worker_init():
 
 
 def basis_of(s):
-    return [Perm(p) for p in pseqs(s)]
+    """a deterministic third of the bases is built from Perm objects with a past (past.mkperm)"""
+    ps = pseqs(s)
+    if used.sel("basis16", [s], 3) and all(used.is_perm(p) and len(p) <= 410 for p in ps):
+        return [past.mkperm(p, i) for i, p in enumerate(ps)]
+    return [Perm(p) for p in ps]
+
+
+class _Timeout(BaseException):
+    pass
+
+
+def _alarm(signum, frame):
+    raise _Timeout()
+
+
+LINE_SECONDS = 90
+
+
+def _limited(fn):
+    """lines with long basis elements run under a wall-clock limit: the verdict of such a basis is decided without
+    the pin-word tables (exponential in the length) - if a regression made the library consult them the line must
+    fail instead of hanging the run"""
+    import signal
+    old = signal.signal(signal.SIGALRM, _alarm)
+    signal.alarm(LINE_SECONDS)
+    try:
+        return fn()
+    except _Timeout:
+        return "ERR:Timeout"
+    finally:
+        signal.alarm(0)
+        signal.signal(signal.SIGALRM, old)
+
+
+_FINITE_CLASSES = [((0, 1), (1, 0)), ((0, 1, 2), (1, 0)), ((0, 1), (2, 1, 0)), ((0, 1, 2), (2, 1, 0)), ((0, 1, 2, 3), (1, 0)),
+                   ((0, 1, 2, 3), (2, 1, 0)), ((0, 1, 2), (3, 2, 1, 0)), ((0, 1), (3, 2, 1, 0)), ((0, 1, 2, 3), (3, 2, 1, 0)),
+                   ((0, 1, 2, 3, 4), (1, 0)), ((0, 1), (4, 3, 2, 1, 0)), ((0, 1, 2, 3, 4), (2, 1, 0))]
+# principal classes whose special simples (alternations / wedges) are infinite: verdict False without any automaton
+_INFINITE_CLASSES = [((0, 1, 3, 2),), ((1, 2, 0, 3),), ((1, 2, 3, 0),), ((2, 0, 3, 1),), ((0, 2, 1, 3),), ((1, 3, 0, 2),),
+                     ((3, 0, 1, 2),), ((0, 3, 2, 1),), ((2, 1, 0, 3),), ((3, 2, 0, 1),), ((1, 0, 3, 2),), ((0, 2, 3, 1),)]
+
+
+def _churn_line(a):
+    """the `av` lines evaluated after histories of short-lived class objects (a deterministic fifth); run() moves them
+    into the LAST stream: those histories reset the library's instance cache, the other lines must keep accumulating
+    class objects undisturbed"""
+    return used.sel("av", list(a), 5)
+
+
+def _churn_av(classes):
+    """short-lived class objects: created, asked the verdict, dropped (instance cache reset, garbage collected)"""
+    used.churn(lambda b: Av([Perm(p) for p in b]), [lambda c: c.has_finitely_many_simples()], classes, Av.clear_cache)
+
+
+# classes of very short elements: the strategy's verdict is True and its automaton is tiny
+_TINY_CLASSES = [((0, 1),), ((1, 0),), ((0, 1), (1, 0)), ((0,),), ((0, 1), (1, 0, 2)), ((1, 0), (0, 1))]
+
+
+def _churn_strat(classes):
+    used.churn(lambda b: Strat([Perm(p) for p in b]), [lambda t: t.applies()], classes)
+
+
+def _long(a0):
+    return any(len(p) >= 9 for p in pseqs(a0))
 
 
 def pb(s):
@@ -69,12 +139,29 @@ def impl(op, a):
             b = basis_of(a[0])
             u, c, d = pb(a[1]), pb(a[2]), pb(a[3])
             dfa = PinWords.make_dfa_for_basis(b, use_db=u) if d else None
-            return fbool(PinWords.has_finite_simples(b, use_db=u, check_all=c, dfa=dfa))
-        return guarded(f)
+            fn = lambda l: fbool(PinWords.has_finite_simples(l, use_db=u, check_all=c, dfa=dfa))    # noqa: E731
+            if b and not d and used.sel(op, a, 4):
+                # argument aliasing: the list handed over held only the first element in an earlier call
+                return used.grown_list(fn, b, first=(b[:1] if len(b) > 1 else []))
+            return fn(b)
+        return guarded(lambda: _limited(f)) if _long(a[0]) else guarded(f)
     if op == "av":
-        return guarded(lambda: fbool(Av(basis_of(a[0])).has_finitely_many_simples()))
+        def f():
+            make = lambda: fbool(Av(basis_of(a[0])).has_finitely_many_simples())        # noqa: E731
+            if not _churn_line(a):
+                return make()
+            # the verdict after two different histories of short-lived class objects (finite classes: verdict True /
+            # principal classes with infinitely many simples: verdict False; dropped and collected): a class object
+            # at a recycled address must not inherit anything
+            return used.after_histories(make, [lambda: _churn_av(_FINITE_CLASSES), lambda: _churn_av(_INFINITE_CLASSES)])
+        return guarded(lambda: _limited(f)) if _long(a[0]) else guarded(f)
     if op == "strat":
-        return guarded(lambda: fbool(Strat(basis_of(a[0])).applies()))
+        def f():
+            make = lambda: fbool(Strat(basis_of(a[0])).applies())       # noqa: E731
+            if not used.sel(op, a, 5):
+                return make()
+            return used.after_histories(make, [lambda: _churn_strat(_TINY_CLASSES), lambda: _churn_strat(_INFINITE_CLASSES)])
+        return guarded(lambda: _limited(f)) if _long(a[0]) else guarded(f)
     if op == "cli":
         def f():
             buf = io.StringIO()
@@ -163,10 +250,42 @@ def family_patterns(name, k):
     return out
 
 
+ORACLE_LONG = 40
+
+
 def family_finite(name, bs):
     """no orientation of the family avoids the basis"""
     k = max([len(b) for b in bs] + [1])
+    if k > 6:
+        return family_finite_long(name, bs)
     return all(any(tuple(b) in pats for b in bs) for pats in family_patterns(name, k))
+
+
+def family_finite_long(name, bs):
+    """the same for LONG basis elements (the pattern sets above grow exponentially): an element b occurs in some
+    member of the family iff it occurs in the member with |b|+2 pairs (the fact family_patterns is built on), decided
+    by the backtracking containment pinlib.contains_long; agrees with the table-based reading on short elements
+    (self-test at the start of run())"""
+    fam = dict(FAMILIES)[name]
+    bs = [tuple(b) for b in bs]
+    unknown = False
+    for g in D8:
+        hit = False
+        undecided = False
+        for b in sorted(bs, key=len):
+            try:
+                if pinlib.contains_long(g(fam(len(b) + 2)), b):
+                    hit = True
+                    break
+            except pinlib.Undecided:
+                undecided = True
+        if not hit:
+            if not undecided:
+                return False
+            unknown = True
+    if unknown:
+        raise pinlib.Undecided()        # (the bounded search could not settle some orientation: the oracle is silent)
+    return True
 
 
 def special_oracle(bs):
@@ -237,6 +356,21 @@ def verdict_oracle(bs):
     if any(len(b) <= 2 for b in bs):
         # Av contains only monotone permutations (or nothing): no simple permutation beyond length 2
         return "T"
+    mono = lambda b, up: all((x < y) == up for x, y in zip(b, b[1:]))       # noqa: E731
+    if any(mono(b, True) for b in bs) and any(mono(b, False) for b in bs):
+        # a class without long increasing and without long decreasing permutations is finite (Erdos-Szekeres)
+        return "T"
+    if any(len(b) > 8 for b in bs):
+        # long elements: no enumeration; a class containing one of the explicit infinite families of simples has
+        # infinitely many
+        if max(len(b) for b in bs) > ORACLE_LONG:
+            return None
+        try:
+            if not special_oracle([tuple(b) for b in bs]):
+                return "F"
+        except pinlib.Undecided:
+            pass
+        return None
     counts = simple_counts(class_key(bs))
     ns = sorted(counts)
     for n in ns:
@@ -252,9 +386,14 @@ def oracle(op, a):
         bs = pseqs(a[0])
         if not all(sorted(b) == list(range(len(b))) for b in bs):
             return None
-        if op == "special":
-            return fbool(special_oracle(bs))
-        return fbool(family_finite(op, bs))
+        if any(len(b) > ORACLE_LONG for b in bs):
+            return None             # (containment in a member of length > 80 by backtracking: model comparison only)
+        try:
+            if op == "special":
+                return fbool(special_oracle(bs))
+            return fbool(family_finite(op, bs))
+        except pinlib.Undecided:
+            return None
     if op == "hfs" or op == "strat":
         return verdict_oracle(pseqs(a[0]))
     if op == "av":
@@ -317,9 +456,46 @@ def one_based(p):
     return "".join(str(v + 1) for v in p)
 
 
+def _selftest():
+    """the long-element readings of the oracle against the table-based / index-subset ones on short inputs"""
+    for n in range(6):
+        for sg in itertools.permutations(range(n)):
+            for k in range(4):
+                for pi in itertools.permutations(range(k)):
+                    if pinlib.contains_long(sg, pi) != pinlib.contains(sg, pi):
+                        raise AssertionError("oracle self-test: contains_long differs on %r %r" % (sg, pi))
+    for n in (3, 4, 5):
+        for b in itertools.permutations(range(n)):
+            for name, _ in FAMILIES:
+                for extra in ((), ((0, 1, 2),), ((2, 1, 0), (1, 3, 0, 2))):
+                    bs = [b] + list(extra)
+                    if family_finite_long(name, bs) != all(any(tuple(x) in pats for x in bs)
+                                                          for pats in family_patterns(name, max(len(x) for x in bs))):
+                        raise AssertionError("oracle self-test: family_finite_long differs on %s %r" % (name, bs))
+
+
 def run(ctx):
+    deferred = []
+    orig = ctx.compare
+
+    def compare(stream, lines, **kw):
+        keep = []
+        for l in list(lines):
+            t = l.split(" ")
+            (deferred if t[0] == "av" and _churn_line(t[1:]) else keep).append(l)
+        orig(stream, keep, **kw)
+    ctx.compare = compare
+    try:
+        _run(ctx)
+    finally:
+        ctx.compare = orig
+    ctx.compare("class-object-histories", deferred)
+
+
+def _run(ctx):
     rng = ctx.rng
     quick = ctx.tier == "quick"
+    _selftest()
     from permuta import Perm as P, Basis as Bs
     from permuta.permutils import is_polynomial
 
@@ -359,20 +535,26 @@ def run(ctx):
         lines.append("symsets " + fseqs(b))
         lines.append("basis " + fseqs(b + (b[0],)))
     table_lines = lines
-    # -- verdicts: sampled classes, every entry point, orders, repetitions, redundant elements, symmetric images
+    # -- verdicts: sampled classes, every entry point, orders, repetitions, redundant elements, symmetric images.
+    #    Every class gets the five entry points; the five VARIANT groups (other flag combinations, reversed order,
+    #    repeated element, redundant element, symmetric images) are all applied in the thorough tier, in the quick
+    #    tier each class gets two of them in rotation (a flag combination with check_all=T - which always builds the
+    #    automaton - on every other class only).
     classes = []
     classes += rng.sample(singles[9:], 6 if quick else 24)                   # single patterns of length 4
-    classes += rng.sample(pairs, 60 if quick else 528)
-    classes += rng.sample(triples, 50 if quick else 600)
+    classes += rng.sample(pairs, 36 if quick else 528)
+    classes += rng.sample(triples, 28 if quick else 600)
     long5 = [tuple(rng.sample(range(5), 5)) for _ in range(40)]
-    for _ in range(8 if quick else 60):
+    for _ in range(6 if quick else 60):
         classes.append((rng.choice(small[9:]), rng.choice(long5)))
     # known interesting classes: separable-like, the wedge/alternation tables themselves
     classes += [((1, 3, 0, 2), (2, 0, 3, 1)), ((0, 1, 2), (1, 3, 0, 2), (2, 3, 0, 1)), ((0, 1, 2), (2, 1, 0)),
                 ((1, 3, 0, 2),), ((0, 2, 1, 3), (1, 3, 0, 2), (2, 0, 3, 1)), ((0, 1, 2, 3), (3, 2, 1, 0))]
     units = []
     flag_sets = ["F F F", "F T F", "T F F", "F F T", "T T F", "T T T", "F T T", "T F T"]
-    for b in classes:
+    light_flags = [fl for fl in flag_sets[1:] if fl.split(" ")[1] == "F"]
+    heavy_flags = [fl for fl in flag_sets[1:] if fl.split(" ")[1] == "T"]
+    for ci, b in enumerate(classes):
         b = tuple(b)
         u = []
         fb = fseqs(b)
@@ -381,30 +563,40 @@ def run(ctx):
         u.append("av %s %s" % (fb, poly(b)))
         u.append("strat " + fb)
         u.append("cli %s %s" % ("_".join(one_based(p) for p in b), poly(b)))
-        for fl in rng.sample(flag_sets[1:], 2):
-            u.append("hfs %s %s" % (fb, fl))
+        groups = set(range(5)) if not quick else {ci % 5, (ci + 2) % 5}
+        if 0 in groups:
+            if quick:
+                u.append("hfs %s %s" % (fb, rng.choice(light_flags)))
+                if ci % 2 == 0:
+                    u.append("hfs %s %s" % (fb, rng.choice(heavy_flags)))
+            else:
+                for fl in rng.sample(flag_sets[1:], 2):
+                    u.append("hfs %s %s" % (fb, fl))
         sh = list(b)
         rng.shuffle(sh)
         dup = sh + [rng.choice(sh)]
-        u.append("hfs %s F F F" % fseqs(sh[::-1]))
-        u.append("strat " + fseqs(dup))
-        u.append("av %s %s" % (fseqs(dup), poly(dup)))
+        if 1 in groups:
+            u.append("hfs %s F F F" % fseqs(sh[::-1]))
+        if 2 in groups:
+            u.append("strat " + fseqs(dup))
+            u.append("av %s %s" % (fseqs(dup), poly(dup)))
         # a redundant element: a one-point extension of a basis element (same class)
         x = rng.choice(b)
-        if len(x) <= 5:
+        if len(x) <= 5 and 3 in groups:
             i, v = rng.randrange(len(x) + 1), rng.randrange(len(x) + 1)
             ext = tuple(y + 1 if y >= v else y for y in x[:i]) + (v,) + tuple(y + 1 if y >= v else y for y in x[i:])
             red = list(b) + [ext]
             rng.shuffle(red)
             u.append("hfs %s F F F" % fseqs(red))
             u.append("av %s %s" % (fseqs(red), poly(red)))
-        for g in rng.sample(D8[1:], 2):
-            img = tuple(g(p) for p in b)
-            u.append("hfs %s F F F" % fseqs(img))
-            u.append("av %s %s" % (fseqs(img), poly(img)))
+        if 4 in groups:
+            for g in rng.sample(D8[1:], 1 if quick else 2):
+                img = tuple(g(p) for p in b)
+                u.append("hfs %s F F F" % fseqs(img))
+                u.append("av %s %s" % (fseqs(img), poly(img)))
         units.append(u)
     # all eight images, all flag combinations on a few classes
-    for b in rng.sample(pairs, 3 if quick else 30) + rng.sample(triples, 3 if quick else 30):
+    for b in rng.sample(pairs, 2 if quick else 30) + rng.sample(triples, 2 if quick else 30):
         u = []
         for g in D8:
             img = tuple(g(p) for p in b)
@@ -415,6 +607,69 @@ def run(ctx):
         for perm_order in itertools.permutations(b):
             u.append("hfs %s F F F" % fseqs(perm_order))
         units.append(u)
+    # -- sizes the streams above never reach.  (1) the table tests on bases with LONG elements (9-12, 21-40, a few
+    #    64-70 for the model comparison): sub-patterns of family members (planted: every orientation is hit /
+    #    all but one), long elements mixed with short ones, several long ones; (2) every entry point on classes whose
+    #    verdict needs no automaton although an element is long (the special simples are infinite by construction, or the class is
+    #    finite because it has a long increasing and a long decreasing element); (3) one unit that needs the automaton
+    #    of elements of length 5 and 6, alone and next to short ones (the library's pin-word table of length 6 costs
+    #    9 s per worker: one unit).
+    def sub_of_member(name, orient, L):
+        mem = D8[orient](dict(FAMILIES)[name](L + 2))
+        idx = sorted(rng.sample(range(len(mem)), L))
+        return std([mem[i] for i in idx])
+
+    def rperm(n):
+        return tuple(rng.sample(range(n), n))
+    long_lines = []
+    for lo, hi, cnt in ((9, 12, 70), (21, 40, 40), (64, 70, 8)) if quick else ((9, 12, 700), (21, 40, 400), (64, 70, 40)):
+        for _ in range(cnt):
+            name = rng.choice(["alt", "w1", "w2"])
+            r = rng.random()
+            if r < 0.45:
+                # one element per orientation of the family (all eight hit) - or all but one
+                b = [sub_of_member(name, o, rng.randrange(lo, hi + 1)) for o in range(8)]
+                if rng.random() < 0.5:
+                    b.pop(rng.randrange(len(b)))
+                b = b[:rng.choice([8, 8, 4])] if hi > 60 else b
+            elif r < 0.75:
+                b = [sub_of_member(rng.choice(["alt", "w1", "w2"]), rng.randrange(8), rng.randrange(lo, hi + 1))
+                     for _ in range(rng.randrange(1, 4))] + [rng.choice(small[3:]) for _ in range(rng.randrange(0, 3))]
+            else:
+                b = [rperm(rng.randrange(lo, hi + 1)) for _ in range(rng.randrange(1, 3))] + [rng.choice(small[9:])]
+            rng.shuffle(b)
+            fb = fseqs(b)
+            long_lines.append("%s %s" % (name, fb))
+            long_lines.append("special " + fb)
+            if rng.random() < 0.5:
+                # every entry point, on a basis whose verdict needs no automaton BY CONSTRUCTION: all its elements
+                # contain 210 (resp. all contain 012), so the parallel alternations of one orientation - unions of two
+                # increasing (decreasing) sequences - avoid the basis: infinitely many simples
+                up = rng.random() < 0.5
+                c = [x for x in b if (pinlib._lis(x) if up else pinlib._lis([-v for v in x])) >= 3]
+                if c and any(len(x) >= 9 for x in c):
+                    fc = fseqs(c)
+                    long_lines.append("hfs %s F F F" % fc)
+                    long_lines.append("strat " + fc)
+                    if hi <= 12:
+                        long_lines.append("av %s %s" % (fc, poly(c)))
+            if hi <= 40 and rng.random() < 0.3:
+                n1, n2 = rng.randrange(lo, hi + 1), rng.randrange(lo, hi + 1)
+                fin = [tuple(range(n1)), tuple(range(n2 - 1, -1, -1)), rng.choice(small[9:])]
+                rng.shuffle(fin)
+                long_lines.append("av %s T" % fseqs(fin))
+    units += [[l] for l in long_lines]
+    mixed = []
+    m5, m6 = rperm(5), rperm(6)
+    for j, b in enumerate([((0, 1, 2), tuple(range(5, -1, -1))), ((2, 1, 0), tuple(range(6))), ((1, 3, 0, 2), (2, 0, 3, 1), m6),
+                           (m5, inv(m5), rev(m5), comp(m5))] +
+                          ([] if quick else [(m6, inv(m6), rev(m6), comp(m6)), (tuple(range(5)), tuple(range(5, -1, -1)))])):
+        mixed.append("hfs %s F F F" % fseqs(b))
+        mixed.append("strat " + fseqs(b))
+        if j < 2 or not quick:
+            mixed.append("hfs %s F T F" % fseqs(b[::-1]))
+    units.append(mixed)
+    ctx.extra["long_element_lines"] = len(long_lines) + len(mixed)
     units += [[l] for l in table_lines]
     rng.shuffle(units)
     lines = []
